@@ -219,3 +219,25 @@ Example enable_example :
   verify_enable ["default"; "duplication"] =
   Some ["cleanup"; "duplication"; "inline"; "math"; "minmax_chains"; "projection"; "sum_chains"; "symmetry"; "unused"].
 Proof. vm_compute. reflexivity. Qed.
+
+(* the pipeline of api.optimize: one guarded block per trait parameter, in the documented order, each pass
+   constructed from the current program (and the declared predicates), framed by preprocess / exline_arithmetic /
+   postprocess (the frame shape itself is recognised verbatim by the translator) *)
+Theorem pipeline_order_proof :
+  map fst pass_order = optimize_trait_params /\ pipeline_frame_ok = true /\
+  map (fun x => fst (snd x)) pass_order =
+    ["CleanupTranslator"; "UnusedTranslator"; "LiteralDuplicationTranslator"; "SymmetryTranslator"; "MinMaxAggregator";
+     "SumAggregator"; "MathSimplification"; "InlineTranslator"; "ProjectionTranslator"].
+Proof. repeat split; reflexivity. Qed.
+
+(* every pass that needs the declared inputs/outputs receives them *)
+Theorem pipeline_args_proof : forall f c args, In (f, (c, args)) pass_order ->
+  (c = "CleanupTranslator" -> args = ["input_predicates"]) /\
+  (c = "UnusedTranslator" \/ c = "InlineTranslator" -> args = ["input_"; "input_predicates"; "output_predicates"]) /\
+  (c = "MathSimplification" -> args = ["input_"]).
+Proof.
+  intros f c args H. unfold pass_order in H. simpl in H.
+  repeat (destruct H as [E|H]; [injection E as <- <- <-; repeat split; intros; try reflexivity; try discriminate;
+    match goal with X: _ \/ _ |- _ => destruct X; discriminate | _ => idtac end|]).
+  contradiction.
+Qed.
